@@ -95,8 +95,10 @@ def run(tier):
     thorough = tier == "thorough"
     cover = collections.Counter()
     # (a) every (state, operation) of the bounded state machine
-    d, res, lines = vlib.tlc_single(PROP, "mc", "MC_C07", cfg="MC_C07_thorough" if thorough else "MC_C07",
-                                    workers=1, timeout=1500 if thorough else 400)
+    # breadth-first (shortest path to every state); thorough: ~900 k states model-checked, a deterministic 1-in-131 sample of
+    # them turned into transition tests
+    d, res, lines = vlib.tlc_single(PROP, "mc", "MC_C07", cfg="MC_C07_thorough" if thorough else "MC_C07", env={"VERIF_BFS": 1},
+                                    workers=8 if thorough else 1, heap="8g" if thorough else "4g", timeout=2400 if thorough else 400)
     rep.add_tlc("MC_C07", res)
     replay_lines(rep, binary, d, lines, "trans", cover)
     rep.sample({"state_reached_by": lines[min(40, len(lines) - 1)]["prefix"], "op": lines[min(40, len(lines) - 1)]["tests"][0],
